@@ -864,7 +864,10 @@ def calc_order_probe(ctx, runner, H, I, sysharness, wdroot):
     box = {0: P["given"]["box"], 1: P["file"]["box"], 2: P["sysbox"]}
     ent = {(p, sg * v, b): H.order_value(orderf, [[pos[p], 0.0, 0.0]], [[sg * vel[v], 0.0, 0.0]], [box[b], 1.0, 1.0])
            for p in pos for v in vel for sg in (1, -1) for b in box}
-    q = H.quantiser(list(ent.values()) + res["values"])
+    q0 = H.quantiser(list(ent.values()) + [v for v in res["values"] if isinstance(v, float)])
+
+    def q(v):
+        return q0(v) if isinstance(v, float) else str(v)
     ordt = H.enc_list([f"{p}:{v}:{b}:{q(o)}" for (p, v, b), o in ent.items()])
     lines = [f"calcorder {int(c['rv'])} {'0' if c['xyz'] else 'N'} {'1' if c['vel'] else 'N'} {'0' if c['box'] else 'N'} "
              f"1 2 {'1' if c['file_box'] else 'N'} 2 {ordt}" for c in combos]
